@@ -678,6 +678,88 @@ func c11History(srv *svc.Server, c *core.Collector, seed uint64, hid int, base i
 	return
 }
 
+// c11Twins: two servers in one process are two registries. The same terminal key is online on both at once: each admits it,
+// each routes its own commands to its own connection, and leaving one leaves the other alone.
+func c11Twins(c *core.Collector, a, b *svc.Server, base int, rounds int) {
+	tagOf := func(rx svc.Rx) (uint32, bool) {
+		if rx.F != nil && rx.F.ID == 0x8103 && len(rx.F.Body) == 10 {
+			return binary.BigEndian.Uint32(rx.F.Body[6:]), true
+		}
+		return 0, false
+	}
+	for k := 0; k < rounds; k++ {
+		key := fmt.Sprintf("%d", base+k)
+		c.Eval()
+		bad := func(sig, detail string) {
+			c.Violate(sig, detail, map[string]any{"kind": "c11twins", "key": key})
+		}
+		ta, err1 := svc.Dial(a.Addr, k%2 == 0, key)
+		tb, err2 := svc.Dial(b.Addr, k%2 == 0, key)
+		if err1 != nil || err2 != nil {
+			c.Inconclusive()
+			return
+		}
+		ta.Write(ta.Frame(0x0002, 11, nil))
+		tb.Write(tb.Frame(0x0002, 22, nil))
+		ra, oka, toa := ta.Next(20 * time.Second)
+		rb, okb, tob := tb.Next(20 * time.Second)
+		if toa || tob {
+			c.Inconclusive()
+			ta.Close()
+			tb.Close()
+			return
+		}
+		if !oka || !okb || ra.F == nil || rb.F == nil || ra.F.ID != 0x8001 || rb.F.ID != 0x8001 {
+			bad("twins|a terminal online on one server was not admitted by a second server in the same process", "key "+key)
+			ta.Close()
+			tb.Close()
+			continue
+		}
+		send := func(s *svc.Server) (string, uint32) {
+			tag := c11Tag.Add(1)
+			body := binary.BigEndian.AppendUint32([]byte{1, 0, 0, 0xF0, 0x03, 4}, tag)
+			res := sendCmd(s.G, key, consts.P8103SetTerminalParams, body, 30*time.Millisecond, 30*time.Millisecond+slackFor(30*time.Millisecond))
+			return res.kind, tag
+		}
+		got := func(t *svc.Term) (uint32, bool) {
+			rx, ok, to := t.Next(300 * time.Millisecond)
+			if to || !ok {
+				return 0, false
+			}
+			return tagOf(rx)
+		}
+		// each server's command reaches its own connection and only that one
+		kA, tagA := send(a)
+		kB, tagB := send(b)
+		ga, hasA := got(ta)
+		gb, hasB := got(tb)
+		if kA == "notexist" || kB == "notexist" || !hasA || !hasB || ga != tagA || gb != tagB {
+			bad("twins|commands of two servers for the same key are not routed each to its own connection", fmt.Sprintf("key %s: server A -> %s (its terminal read tag %d, want %d, got=%v); server B -> %s (read %d, want %d, got=%v)", key, kA, ga, tagA, hasA, kB, gb, tagB, hasB))
+		}
+		// the terminal leaves server A: B's registration is untouched, A's is gone
+		ta.Close()
+		if rec := svc.Lookup(ta.Phone, 11); rec == nil || !rec.WaitLeave(20*time.Second) {
+			c.Inconclusive()
+			tb.Close()
+			return
+		}
+		kB2, tagB2 := send(b)
+		gb2, hasB2 := got(tb)
+		kA2, _ := send(a)
+		if kB2 == "notexist" || !hasB2 || gb2 != tagB2 {
+			bad("twins|a terminal leaving one server lost its registration on the other", fmt.Sprintf("key %s: server B -> %s", key, kB2))
+		}
+		if kA2 != "notexist" {
+			bad("twins|a key that left a server is still registered there", fmt.Sprintf("key %s: server A -> %s", key, kA2))
+		}
+		tb.Close()
+		if rec := svc.Lookup(tb.Phone, 22); rec != nil {
+			rec.WaitLeave(20 * time.Second)
+		}
+		c.Count("twin_server_rounds", 1)
+	}
+}
+
 func c11Worker(c *core.Collector, x *Ctx) {
 	c.Rule = "many short histories: 2-3 keys, 4-8 client goroutines each doing connect / first message / more heartbeats / FIN or RST / reconnect (so duplicate-key connects happen by construction), 2-4 sender goroutines doing SendActiveMessage with uniquely tagged commands; " +
 		"seeded delay injection; every third history against a server with a custom key function (several phone numbers per key); each history checked per key with porcupine. evaluation = one operation; distinct by (history id, yield trace hash)"
@@ -711,6 +793,11 @@ func c11Worker(c *core.Collector, x *Ctx) {
 		return
 	}
 	refusing.Store(srvR.Addr)
+	if !svc.RaceMode {
+		if srvT, err := svc.Start(func() service.TerminalEventer { return svc.NewRecorder() }); err == nil {
+			c11Twins(c, srv, srvT, 3900000+x.Batch*1000, c.N(12, 60))
+		}
+	}
 	n := c.N(75, 500)
 	sem := make(chan struct{}, 4)
 	var wg sync.WaitGroup
